@@ -116,6 +116,16 @@ func Bytes(tag string, n, c int) []byte {
 	return b[:n:c]
 }
 
+// WithTail returns a copy of base (same len and cap) whose bytes beyond len
+// are independent symbolic bytes.
+func WithTail(base []byte, tag string) []byte {
+	t := Bytes(tag, cap(base), cap(base))
+	out := make([]byte, len(base), cap(base))
+	copy(out, base)
+	copy(out[len(base):cap(base)], t[len(base):])
+	return out
+}
+
 // Str returns a string of concrete length n with symbolic content.
 func Str(tag string, n int) string { return string(Bytes(tag, n, n)) }
 
